@@ -22,7 +22,7 @@ TReset == /\ Is("reset")
 Content(e) == CASE e.k = "valid" -> Valid(e.v, e.r) [] e.k = "broken" -> Broken(e.v) [] OTHER -> Absent
 TSleep == Is("sleep") /\ ~slept /\ Sleeps(Ev.ms) /\ slept' = TRUE /\ UNCHANGED vars
 TEdit == Is("edit") /\ Edit /\ file' = [c |-> Content(Ev), m |-> Ev.m] /\ UNCHANGED slept
-TApply == Is("apply") /\ slept /\ Poll /\ ret' \in {"rate", "stop"} /\ slept' = FALSE
+TApply == Is("apply") /\ slept /\ Poll /\ ret' \in {"rate", "stop"} /\ slept' = FALSE /\ Ev.max = MaxLevel(active')
 Silent == l <= Len(Rec) /\ slept /\ Poll /\ ret' \in {"same", "err"} /\ slept' = FALSE /\ UNCHANGED l
 TNext == TReset \/ TSleep \/ TEdit \/ TApply \/ Silent
 TSpec == TInit /\ [][TNext]_<<vars, l, slept>>
